@@ -474,6 +474,9 @@ package main
 //@   ensures [C07] explicit_needs_admin: old(pkt.Set.Sub.Mode) != "" && !old(isAdminOf(t, asUid)) ==> err != nil && (target in t.perUser) == old(target in t.perUser) && t.perUser[target].modeGiven == old(t.perUser[target].modeGiven) && t.perUser[target].modeWant == old(t.perUser[target].modeWant)
 //@   ensures [C07] others_untouched: forall u types.Uid :: u != target ==> (u in t.perUser) == old(u in t.perUser) && ((u in t.perUser) ==> t.perUser[u].modeWant == old(t.perUser[u].modeWant) && t.perUser[u].modeGiven == old(t.perUser[u].modeGiven))
 //@   ensures [C07] want_untouched: old((target in t.perUser) && !t.perUser[target].deleted) && (target in t.perUser) ==> t.perUser[target].modeWant == old(t.perUser[target].modeWant)
+// (an administrator's explicit mode for an existing group subscriber is what the subscriber ends up with - whatever
+// the subscriber's own requested mode is at the moment)
+//@   ensures [C03,C07] explicit_grant_applied: err == nil && old(pkt.Set.Sub.Mode) != "" && t.cat == types.TopicCatGrp && old((target in t.perUser) && !t.perUser[target].deleted) && (target in t.perUser) ==> t.perUser[target].modeGiven == lastParsedMode
 // (the store creates - or un-deletes - the invited user's row with all marks at zero: the cached record starts the same way)
 //@   ensures [C08] invited_record_starts_fresh: err == nil && !old((target in t.perUser) && !t.perUser[target].deleted) && (target in t.perUser) ==> t.perUser[target].readID == 0 && t.perUser[target].recvID == 0 && t.perUser[target].delID == 0 && !t.perUser[target].deleted
 //@   ensures [C07] p2p_modes: t.cat == types.TopicCatP2P && old(pkt.Set.Sub.Mode) != "" && (target in t.perUser) && t.perUser[target].modeGiven != old(t.perUser[target].modeGiven) ==> (t.perUser[target].modeGiven & ^types.ModeCP2P) == 0 && (t.perUser[target].modeGiven & types.ModeApprove) != 0
